@@ -269,6 +269,17 @@ var outcomeRe = regexp.MustCompile(`VP-OUTCOME: (.*)`)
 var crashRe = regexp.MustCompile(`(?m)^panic: (.*)\n(?:.*\n)*?goroutine \d+ \[`)
 
 func nativeReplay(path string, doc *replayDoc, bi *buildInfo) string {
+	out := nativeReplayRounds(path, doc, bi, 1)
+	if strings.HasPrefix(out, "VP-PASS") || strings.HasPrefix(out, "VP-ASSUME") {
+		// the library's own random draws are not injectable: a counterexample may need several native runs
+		if again := nativeReplayRounds(path, doc, bi, 60); !strings.HasPrefix(again, "VP-PASS") && !strings.HasPrefix(again, "VP-ASSUME") {
+			return again + " (within 60 native runs; depends on the library's random draws)"
+		}
+	}
+	return out
+}
+
+func nativeReplayRounds(path string, doc *replayDoc, bi *buildInfo, rounds int) string {
 	args := []string{"test", "-v", "-vet=off", "-count=1", "-run", "^TestVPReplay$", "-overlay", bi.overlayJSON, "-timeout", "300s"}
 	race := strings.HasPrefix(doc.Msg, "DATA RACE")
 	if race {
@@ -277,7 +288,7 @@ func nativeReplay(path string, doc *replayDoc, bi *buildInfo) string {
 	}
 	cmd := exec.Command("go", append(args, doc.Pkg)...)
 	cmd.Dir = repoDir
-	cmd.Env = append(goEnv(), "VP_REPLAY="+path)
+	cmd.Env = append(goEnv(), "VP_REPLAY="+path, fmt.Sprintf("VP_ROUNDS=%d", rounds))
 	out, err := cmd.CombinedOutput()
 	if race && (strings.Contains(string(out), "WARNING: DATA RACE") || strings.Contains(string(out), "race detected during execution")) {
 		return "VP-RACE-DETECTED by go test -race"
